@@ -1220,6 +1220,7 @@ func c12GenSched(r *verifh.Rng) []verifh.Section {
 //	client=wheel  set/move/remove/drain through the public API, tick, and
 //	              hold <k>      the next callback (execute or Drain) of key k blocks until `release <k>`
 //	              boom <k> err|str  the next callback of key k panics with an error value / a string
+//	              ltick         a tick whose callbacks' requests are left pending (replays only, never generated)
 //	              release <k>   while a callback is blocked nothing that was handed to a callback is printed
 //	                            (`held`); everything is printed by the operation after which none is blocked
 //	client=cache  cset/cput/cdel/cget/ctake/tick on the real Cache built with WithLimit(limit) (limit=0: no option)
@@ -1535,6 +1536,22 @@ func TestVerifC12Sched(t *testing.T) {
 				sink.mu.Unlock()
 				sortRq = true
 				note = s.serve(func() bool { return true })
+			case op[0] == "ltick" && len(op) == 1:
+				// a tick after which the run loop is scheduled late: the callbacks start, their requests stay pending and
+				// compete with the requests of the next operation (never generated, see props/C12.json level_note; for replays)
+				for s.poll() {
+				}
+				s.tw.onTick()
+				if !c12Quiesce() {
+					s.hung = true
+					return "TIMEOUT-quiesce"
+				}
+				sink.mu.Lock()
+				out := append([]string{}, sink.fired...)
+				sink.fired = nil
+				sink.mu.Unlock()
+				sort.Slice(out, func(i, j int) bool { return c12Less(out[i], out[j]) })
+				return strings.TrimSpace("lazy " + strings.Join(out, " "))
 			case op[0] == "tick" && len(op) == 1:
 				sortRq = true
 				for s.poll() { // requests that are still pending from earlier operations
